@@ -105,6 +105,7 @@ class CellVariable:
                                                                 self.BCs))
         if self.BCsTerm_precalc:
             self._BCsTerm  = boundaryConditionsTerm(self.BCs)
+        self._BCs_applied = self.BCs._state_token()
         self.value.modified = False
 
     @property
@@ -340,8 +341,16 @@ class CellVariable:
         if self.BCsTerm_precalc:
             self._BCsTerm = boundaryConditionsTerm(self.BCs)
  
+        self._BCs_applied = self.BCs._state_token()
         self.BCs.modified = False
         self.value.modified = False
+
+
+    def _BCs_outdated(self):
+        """True if the ghost cells and the cached boundary-condition terms may
+        not reflect the current boundary conditions and cell values."""
+        return (self.BCs.modified or self.value.modified
+                or self._BCs_applied != self.BCs._state_token())
         
         
     def update_value(self, new_cell):
